@@ -14,7 +14,8 @@ META = dict(
          "interleavings of bids (equal, barely improving, just short, far off, wrong denomination, unknown auction), hook runs and time steps "
          "for 2 bidders and every auction kind x generation, with and without token-mint data; each generated transition is executed on the real "
          "code and TLC checks code step = spec step and the C11 formulas (custody = standing bids, improvement by the bid factor, refund of the "
-         "outbid bidder in the same step, exactly the winner receives the lot, own deposit only, recorded total = sum of deposits, custody keeps "
+         "outbid bidder in the same step, every way an auction ends - regular close: exactly the winner receives the lot; emergency shutdown "
+         "of the app: the standing bidder is made whole -, own deposit only, recorded total = sum of deposits, custody keeps "
          "the outstanding deposits). Seeded behaviours add 3 actors, random configurations, both generations interleaved and automatic fills "
          "by Dutch auctions. Exhaustive for the bounded models, sampled beyond them.",
     note="Trusted: TLC/Json module, the projection functions of harness/fam/english, bank/store semantics. Generation-1 begin blocker is called "
@@ -86,11 +87,8 @@ def _produce(d, tier, seed):
     out["A"] = dict(mc=mca, fails=tr["fails"], stats=tr["stats"], distinct=tr.get("distinct"), log="a.ndjson")
     # ---- world B: limit bids
     tb = os.path.join(d, "TB.txt")
-    kb = 'Fixed = FALSE  Bidders = {"u1", "u2"}  DepAmts = {10, 25}  Prems = {2, 5}  MaxDeps = %d  Fund = 60  Emit = TRUE' % (2 if quick else 3)
-    mcb = [_mc(d, "MC_LimitBid", "code", kb, "InvTotal InvNonNeg InvCustody", "StateBound", tb)]
-    # design-level result for the repaired withdraw (no dump): the invariants hold without the deviation guard
-    kf = 'Fixed = TRUE  Bidders = {"u1", "u2"}  DepAmts = {10, 25}  Prems = {2, 5}  MaxDeps = 2  Fund = 60  Emit = FALSE'
-    mcb.append(_mc(d, "MC_LimitBid", "fixed", kf, "InvTotal InvNonNeg InvCustody", "StateBound", None))
+    kb = 'Bidders = {"u1", "u2"}  DepAmts = {10, 25}  Prems = {2, 5}  MaxDeps = %d  Fund = 60  Emit = TRUE' % (2 if quick else 3)
+    mcb = [_mc(d, "MC_LimitBid", "book", kb, "InvTotal InvNonNeg InvCustody", None, tb)]
     lb = os.path.join(d, "b.ndjson")
     runs, steps = (30, 80) if quick else (250, 120)
     vlib.run_vh(["english", "--world", "B", "--tfile", tb, "--out", lb, "--seed", str(seed), "--runs", str(runs), "--steps", str(steps)], timeout=3000)
@@ -178,4 +176,5 @@ def run(c):
              "plus seeded behaviours (3 actors, random configurations, both generations interleaved, automatic fills); each log node is a TLC state"),
         assumptions=["generation-1 auction.BeginBlocker is called directly (it is not wired in app.go)",
                      "the generic generation-2 English auction is opened through the exported keeper entry point CreateLockedVault",
-                     "token-mint supply of the governance token exceeds every burn (the burn guard CurrentSupply - amount > 0 is never hit)"])
+                     "token-mint supply of the governance token exceeds every burn (the burn guard CurrentSupply - amount > 0 is never hit)",
+                     "the app's emergency shutdown is executed through the esm keeper's status setter (the cool-off end lies beyond every behaviour)"])
